@@ -442,10 +442,31 @@ class Cb_attr_bind(_ExprCb):
         return S.concat("[", vstr(olds[0]), "]")
 
 
+is_group_uf = z3.Function("is_one_parenthesised_group", z3.StringSort(), z3.BoolSort())
+
+
+@register
+class IsGroup(Contract):
+    """is_group(exp): exp is enclosed by ONE matching pair of parentheses (quote-aware).  The scan over the
+    characters of a symbolic string is out of reach of the VC generator: at call sites it is the uninterpreted
+    predicate is_one_parenthesised_group; the function itself is checked exhaustively on all strings over
+    { ( ) " ' a blank backslash } up to a length bound against a reference (bounded, see bounded/seams3.py)."""
+    target = "mappyfile.transformer.MapfileTransformer.is_group"
+    cases = []
+    props = ("C10",)
+
+    def at_call(self, E, tr, exp):
+        from contracts.quoter import in_pair
+        g = S.Sym(S.BOOL, is_group_uf(S.term(exp)))
+        # part of the (bounded-checked) contract: a group starts with "(" and ends with ")" once stripped
+        E.assume(S.implies(g, in_pair(exp, "(", ")")))
+        return g
+
+
 @register
 class Cb_expression(_ExprCb):
-    """(exp): the stored string is exp wrapped in parentheses, or exp itself when exp is already a single
-    parenthesised group (C10: parentheses never regroup)"""
+    """(exp): the stored string is exp wrapped in parentheses, or exp itself exactly when exp already is one
+    parenthesised group (C10: parentheses never regroup; C04: no parentheses are piled up on re-parsing)"""
     cb = "expression"
 
     def ensures(self, E, case, args, kwargs, out):
@@ -458,13 +479,10 @@ class Cb_expression(_ExprCb):
         if ok and E.symbolic:
             old = vstr(self.olds(E, t)[0])
             v = t[0].value
+            grp = S.Sym(S.BOOL, is_group_uf(S.term(old)))
             yield "wrapped-or-unchanged", S.or_(S.eq(v, S.concat("(", old, ")")), S.eq(v, old))
-            # unchanged only if the operand is one parenthesised group: ghost tightness ATOM-level, which the
-            # grammar guarantees for results of comparison/and_test/or_test/expression (they wrap themselves)
-            from contracts.quoter import in_pair
-            yield "unwrapped-only-if-it-starts-and-ends-with-a-parenthesis", S.implies(S.eq(v, old), S.or_(in_pair(old, "(", ")"), S.eq(old, S.concat("(", old, ")"))))
-            tight = t[0].ghost.get("tight")
-            yield "unwrapped-only-if-operand-is-a-group", S.implies(S.and_(S.eq(v, old), S.not_(S.eq(old, S.concat("(", old, ")")))), S.eq(tight, TIGHT["ATOM"]))
+            yield "unwrapped-only-if-operand-is-one-group", S.implies(S.not_(S.eq(v, S.concat("(", old, ")"))), grp)
+            yield "a-group-is-not-wrapped-again", S.implies(grp, S.eq(v, old))
             yield "position-unchanged", pos_unchanged(E, t[0], "t1")
 
 
